@@ -107,14 +107,6 @@ C08_NoSilentChoice == Faulted /\ FOutcome = "ok" =>
 KindSeq == SetToSeq(FaultKinds)
 \* Hash (sums of cardinalities) is too regular to sample with: a polynomial hash of the dependency sets themselves,
 \* mixed with kind and site, so that every kind is emitted (the harness refuses to run with a kind that has no text)
-RECURSIVE Pow2(_)
-Pow2(k) == IF k = 0 THEN 1 ELSE 2 * Pow2(k - 1)
-SetCode(S) == LET RECURSIVE C(_)
-                  C(T) == IF T = {} THEN 0 ELSE LET v == CHOOSE v \in T : TRUE IN Pow2(PosN(v)) + C(T \ {v})
-              IN C(S)
-Hash2 == LET RECURSIVE H(_)
-             H(j) == IF j > Len(Build) THEN 7 ELSE (H(j + 1) * 131 + SetCode(deps[Build[j]])) % 1000003
-         IN H(1)
 FHash == ((Hash2 % 10007) * 31 + (Hash \div BaseMod) * 17 + 7919 * (CHOOSE j \in 1..Len(KindSeq) : KindSeq[j] = fault.kind)
           + 3571 * PosN(fault.site) + (IF layout = "single" THEN 0 ELSE IF layout = "split" THEN 1 ELSE IF layout = "noparams" THEN 2 ELSE 3)) % 100003
 FEmit == (Faulted /\ FaultEmitMod > 0 /\ FHash % FaultEmitMod = 0) =>
